@@ -40,6 +40,21 @@ CLAIMED = {
                 "references vs copies, try/catch/finally); programs outside it are counted and not judged. Trusted: tree dump/reader (round-trip tied), generator, canonicaliser.",
         "technique": "translation validation against an extracted Coq reference interpreter",
     },
+    "C13": {
+        "category": "proof",
+        "text": "Coq theorems (Properties_C13.v) over the lock/field-access table of Dispatch_Engine, Type_Conversions and ChaiScript_Basic regenerated from the headers on every run "
+                "(t_Locks.py): C13_lockset (generic, induction over all interleavings respecting exclusive/shared/recursive mutex semantics) + C13_lockset_instance (vm_compute: every "
+                "public member function keeps each shared field inside its mutex, exclusively for writes; exempt atomic/per-thread fields are part of the statement), "
+                "C13_section_exclusive/C13_registration_sections, C13_retained and C13_visible (every interleaving of registration sections), C13_use_once (m_use_mutex held across "
+                "eval_file). Tie: translator + sequential histories vs the extracted state-transformer model. PARTIAL by nature: races below the critical-section abstraction "
+                "(Boxed_Value::Data flags, m_loc atomics, thread_local maps, shared_ptr control blocks, libstdc++) and solo-equality of thread results are only stress-tested under "
+                "ThreadSanitizer (T=2..16, injected yields) and labelled stress evidence, not proof.",
+        "design_ref": "DESIGN.md §6 C13",
+        "note": "Trusted: Coq kernel+vm_compute; t_Locks.py text recogniser (textual order stands for all paths; `_int` helpers analysed at call sites; constructors single-threaded; "
+                "CHAISCRIPT_VERIF build checked to have identical locks/shared accesses); one exclusive section = one atomic transformer; abstract engine state tied to the real tables "
+                "only by sequential histories; extraction; gcc-12 TSan and the schedules it happens to see. No axioms.",
+        "technique": "Coq lockset/interleaving proofs over a source-regenerated lock table + extracted-model differential + ThreadSanitizer stress",
+    },
 }
 PENDING_REASON = "check not built yet in this round (work in progress; see DESIGN.md §6 for the planned Coq model and tie)"
 ALL = ["C%02d" % i for i in range(1, 21)]
